@@ -47,6 +47,13 @@ const tickMargin = 1500 * time.Millisecond
 // connectionSendBufferSize of both transports
 const queueCapacity = 100
 
+// unresponsive peer: the write loop waits 1 s for the answer to its close frame; everything must be gone this long
+// after the close frame was seen
+var muteBound = 2500 * time.Millisecond
+
+// slow reader: longer than a sender would reasonably wait, shorter than the write loop's 5 s write deadline
+const slowPause = 2500 * time.Millisecond
+
 type source struct {
 	idx     int
 	n       int // operation number that created it
@@ -347,6 +354,15 @@ type Script struct {
 	// connection while the handler call waits for its cancellation; the server notices when a write fails
 	// (the second keep-alive after the drop at the latest) and must then cancel the handler context.
 	GateDrop bool
+	// Mute: the peer stays connected but unresponsive once the server has begun to end the connection: it does not
+	// answer the close frame, sends nothing, does not drop.  The server must tear the connection down by itself
+	// (the write loop's 1 s wait for the answer, then the socket is closed, which ends the read loop): registry,
+	// Stop() counters and goroutines are read within a bound, BEFORE the client closes anything.
+	Mute bool
+	// Slow: after the labels, this many queries with 100 KB answers are written back to back while the client reads
+	// nothing for slowPause; then it reads everything.  The write loop blocks on the socket, the queue fills, the
+	// read loop blocks in sendMessage: back-pressure, nothing may be lost.
+	Slow int
 	// Full: after the labels (which start at least one subscription) this frame makes the server begin
 	// closing; the harness does not answer the close frame, so the write loop sits in its 1 s wait and
 	// drains nothing; meanwhile the first source delivers events until the goroutine blocks on the full
@@ -517,6 +533,7 @@ func runConversation(tag string, sc Script) (res Result) {
 	ticksWaited := 0
 	cv.noRead = sc.Flood > 0
 	var clientClosing int32
+	var readerPaused int32
 	readerDone := make(chan struct{})
 	c.SetPongHandler(func(s string) error { cv.evs <- event{kind: "pong", tok: s}; return nil })
 	// The client does not answer the server's close frame by itself: the harness first records
@@ -530,6 +547,9 @@ func runConversation(tag string, sc Script) (res Result) {
 		go func() {
 			defer close(readerDone)
 			for {
+				for atomic.LoadInt32(&readerPaused) != 0 {
+					time.Sleep(2 * time.Millisecond)
+				}
 				_, p, err := c.ReadMessage()
 				if err != nil {
 					code := -1
@@ -947,6 +967,77 @@ func runConversation(tag string, sc Script) (res Result) {
 		// the write loop's 1 s wait passes; it closes the socket and exits
 		time.Sleep(1300 * time.Millisecond)
 	}
+	if sc.Slow > 0 && !cv.term && cv.ackSeen {
+		flush()
+		w.takeExecs()
+		firstSlow := len(performed)
+		atomic.StoreInt32(&readerPaused, 1)
+		time.Sleep(20 * time.Millisecond) // the reader is parked (or inside one last ReadMessage)
+		for i := 0; i < sc.Slow; i++ {
+			n := len(performed)
+			l := Label{Kind: lMsg, Type: startWord, ID: 2000 + i, Pay: "doc", Doc: "query", Big: true}
+			performed = append(performed, l)
+			cv.log = append(cv.log, sexp.T("sent", sexp.Int(n)))
+			data, _ := l.wire(n)
+			c.SetWriteDeadline(time.Now().Add(4 * waitT))
+			if err := c.WriteMessage(websocket.TextMessage, data); err != nil {
+				cv.stall = append(cv.stall, "slow-write-failed")
+				break
+			}
+		}
+		time.Sleep(slowPause)
+		atomic.StoreInt32(&readerPaused, 0)
+		// all of them have been executed (the read loop got through its back-pressure)
+		nSlow := len(performed) - firstSlow
+		deadline := time.Now().Add(10 * waitT)
+		for {
+			w.mu.Lock()
+			got := len(w.execs)
+			w.mu.Unlock()
+			if got >= nSlow || time.Now().After(deadline) {
+				if got < nSlow {
+					cv.stall = append(cv.stall, "slow-not-executed")
+				}
+				break
+			}
+			cv.pump(time.Now().Add(5 * time.Millisecond))
+		}
+		byN := map[int][]sexp.Node{}
+		for _, e := range w.takeExecs() {
+			if len(e.List) == 2 && e.List[1].Kind == 'z' {
+				n := int(e.List[1].Int.Int64())
+				byN[n] = append(byN[n], e)
+			}
+		}
+		for n := firstSlow; n < len(performed); n++ {
+			obs = append(obs, sexp.T("obs", sexp.T("execs", byN[n]...), sexp.T("nostops")))
+		}
+		// everything the read loop queued for these operations arrives before the barrier's complete
+		dirty = true
+		flushLong := func() {
+			from := len(cv.frames)
+			doFrame(Label{Kind: lMsg, Type: startWord, ID: barrierID, Pay: "doc", Doc: "query"})
+			if !cv.term {
+				deadline := time.Now().Add(10 * waitT)
+				for !cv.term {
+					found := false
+					for _, f := range cv.frames[from:] {
+						if f.Kind == "complete" && f.ID == barrierID {
+							found = true
+						}
+					}
+					if found || !cv.pump(deadline) {
+						if !found && !cv.term {
+							cv.stall = append(cv.stall, "slow-barrier")
+						}
+						break
+					}
+				}
+			}
+			dirty = false
+		}
+		flushLong()
+	}
 	if sc.Flood > 0 && !cv.term {
 		// a client that never reads: big responses fill the socket buffers and the outgoing queue
 		for i := 0; i < sc.Flood; i++ {
@@ -999,6 +1090,25 @@ func runConversation(tag string, sc Script) (res Result) {
 		}
 	}
 	cv.log = append(cv.log, sexp.T("sent", sexp.Int(len(performed))))
+	// unresponsive peer: what is left of the connection muteBound after the server's close frame, while the client
+	// still holds the TCP connection open and has answered nothing
+	muted := false
+	var muteLeft, muteReg int
+	var muteWhere []string
+	var muteObs sexp.Node
+	muteAccount := func() {
+		deadline := time.Now().Add(muteBound)
+		for {
+			muteLeft, muteWhere = servingInfo(tag, time.Now())
+			muteReg = registrySize(api)
+			if (muteLeft == 0 && muteReg <= 0) || time.Now().After(deadline) {
+				break
+			}
+			time.Sleep(5 * time.Millisecond)
+		}
+		muteObs = snapshot()
+		muted = true
+	}
 	switch end {
 	case "drop-during-handler":
 		end = "drop"
@@ -1016,7 +1126,11 @@ func runConversation(tag string, sc Script) (res Result) {
 		}
 		end = "app-close"
 	case "peer":
-		replyClose()
+		if sc.Mute {
+			muteAccount()
+		} else {
+			replyClose()
+		}
 	case "client-close":
 		atomic.StoreInt32(&clientClosing, 1)
 		c.WriteControl(websocket.CloseMessage, websocket.FormatCloseMessage(websocket.CloseNormalClosure, "bye"), time.Now().Add(waitT))
@@ -1038,7 +1152,18 @@ func runConversation(tag string, sc Script) (res Result) {
 				cv.log = append(cv.log, sexp.T("f", SFrame{Kind: "closed", Code: cv.termCode}.sexp()))
 			}
 		}
-		replyClose()
+		if sc.Mute {
+			muteAccount()
+			select {
+			case <-done:
+			default:
+				cv.stall = append(cv.stall, "close-not-completed")
+			}
+			atomic.StoreInt32(&clientClosing, 1)
+			c.Close() // only now does the peer go away
+		} else {
+			replyClose()
+		}
 		t := time.NewTimer(2 * waitT)
 		select {
 		case <-done:
@@ -1073,7 +1198,12 @@ func runConversation(tag string, sc Script) (res Result) {
 		}
 		time.Sleep(2 * time.Millisecond)
 	}
-	obs = append(obs, snapshot())
+	if muted {
+		left, where, reg = muteLeft, muteWhere, muteReg
+		obs = append(obs, muteObs)
+	} else {
+		obs = append(obs, snapshot())
+	}
 	wn := make([]sexp.Node, len(where))
 	for i, s := range where {
 		wn[i] = sexp.Str(s)
